@@ -212,6 +212,9 @@ def synack_cases():
         # _propagate_errors - is noted in DESIGN.md, not asserted)
         'accept_raises': st.just(False),
         'fd': st.sampled_from([None, 7]),
+        # without the handshake _cancel() cannot refuse anything: the job is an
+        # ordinary job, accepted and owned like any other
+        'handshake': st.sampled_from([True, True, False]),
     })
 
 
@@ -228,7 +231,9 @@ def execute_synack(case):
         accepted.append((pid, t))
         if case['accept_raises']:
             raise RuntimeError('accept callback failed')
-    r = bp.ApplyResult(cache, None, accept_callback=acb, send_ack=send_ack)
+    handshake = case.get('handshake', True)
+    r = bp.ApplyResult(cache, None, accept_callback=acb,
+                       send_ack=send_ack if handshake else None)
     cancelled = False
     acked = 0
     labels = set()
@@ -244,7 +249,23 @@ def execute_synack(case):
             r._ack(None, 12.5, 4242, case['fd'])
             acked += 1
             new = sent[n_sent:]
-            if cancelled:
+            if not handshake:
+                labels.add('no_handshake')
+                if cancelled:
+                    labels.add('cancel_without_handshake')
+                if new:
+                    return bad('C03/answer-without-handshake', 'answers %r' % (new,))
+                if accepted[n_acc:] != [(4242, 12.5)]:
+                    return bad('C03/accept-callback', 'no handshake%s: accept '
+                               'callback calls %r' % (
+                                   ', _cancel() called before' if cancelled else '',
+                                   accepted[n_acc:]))
+                if r._worker_pid != 4242 or r._time_accepted != 12.5:
+                    return bad('C03/owner-not-recorded', 'no handshake%s: owner %r,'
+                               ' accept time %r' % (
+                                   ', _cancel() called before' if cancelled else '',
+                                   r._worker_pid, r._time_accepted))
+            elif cancelled:
                 labels.add('cancelled_before_ack')
                 if len(accepted) != n_acc:
                     return bad('C03/cancelled-accepted', 'accept callback ran for a '
